@@ -323,6 +323,35 @@ func credentialClause(f []string, caller *security.Caller, via string) string {
 		if aud != f[9] {
 			return "kube-review-not-bound-to-audience"
 		}
+		// ... by the API server of the cluster the caller names (gRPC: exactly one clusterid value;
+		// HTTP: the first), the primary one for no name, the primary's name or an alias of it
+		claimed := ""
+		if c := wire.DecList(f[6]); f[6] != "-" && (len(c) == 1 || (f[1] == "http" && len(c) > 0)) {
+			claimed = c[0]
+		}
+		primary, alias := wire.Dec(f[3]), ""
+		for _, al := range wire.DecList(f[4]) {
+			if k, v, _ := strings.Cut(al, "="); k == claimed {
+				alias = v
+			}
+		}
+		want := "remote:" + claimed
+		if claimed == "" || claimed == primary || alias == primary {
+			want = "primary"
+		} else if f[5] != "nil" {
+			direct := false
+			for _, r := range wire.DecList(f[5]) {
+				if r == claimed {
+					direct = true
+				}
+			}
+			if !direct {
+				want = "remote:" + alias
+			}
+		}
+		if !strings.Contains(via, " via="+wire.Enc(want)+" ") {
+			return "kube-review-at-wrong-cluster"
+		}
 		if tok != f[8] {
 			return "kube-review-of-another-token"
 		}
